@@ -18,7 +18,7 @@
 
    Every Go operation that can panic is a partial primitive of ExValues.v (go_index, go_slice, go_slice_from,
    dec_mul, dec_quorem, ...) or the argument access [with_arg] below; where the primitive is undefined the model
-   returns [Panic].  Nothing is totalised: the guards of the Go code are transcribed as they are and it is the
+   returns [Panic c] (c = the class of the Go panic).  Nothing is totalised: the guards of the Go code are transcribed as they are and it is the
    THEOREMS (proofs/ExEvalProofs.v) that show the guards keep every primitive inside its domain.
 
    Not modelled (enter as Section variables, the theorems hold for every instantiation):
@@ -38,11 +38,11 @@ Definition zlen {A} (l : list A) : Z := Z.of_nat (length l).
 
 (* args[k] *)
 Definition with_arg (args : list value) (k : nat) (f : value -> res) : res :=
-  match nth_error args k with Some v => f v | None => Panic end.
+  match nth_error args k with Some v => f v | None => Panic PBounds end.
 
 (* args[k:] *)
 Definition with_rest (args : list value) (k : nat) (f : list value -> res) : res :=
-  match go_slice_from args (Z.of_nat k) with Some r => f r | None => Panic end.
+  match go_slice_from args (Z.of_nat k) with Some r => f r | None => Panic PBounds end.
 
 (* ------------------------------------------------------------------------------------------------ *)
 (* wrappers.go *)
@@ -179,7 +179,7 @@ Definition word_finish (t : text) (index : Z) (delims : text) : res :=
   let words := extract_words t delims in
   let offset := if (index <? 0)%Z then (index + zlen words)%Z else index in
   if negb ((0 <=? offset)%Z && (offset <? zlen words)%Z) then Ret VErr
-  else match go_index words offset with Some w => Ret (VText w) | None => Panic end.
+  else match go_index words offset with Some w => Ret (VText w) | None => Panic PBounds end.
 
 Definition word_body (t : text) (args : list value) : res :=
   with_arg args 0 (fun a0 =>
@@ -195,9 +195,9 @@ Definition word_slice_finish (t : text) (start end_ : Z) (delims : text) : res :
   if (zlen words <=? start)%Z then Ret (VText []) else
   let end_ := if (zlen words <=? end_)%Z then zlen words else end_ in
   if (0 <? end_)%Z then
-    match go_slice words start end_ with Some ws => Ret (VText (join_sp ws)) | None => Panic end
+    match go_slice words start end_ with Some ws => Ret (VText (join_sp ws)) | None => Panic PBounds end
   else
-    match go_slice_from words start with Some ws => Ret (VText (join_sp ws)) | None => Panic end.
+    match go_slice_from words start with Some ws => Ret (VText (join_sp ws)) | None => Panic PBounds end.
 
 Definition word_slice_after_end (t : text) (args : list value) (start end_ : Z) : res :=
   if ((0 <? end_)%Z && (end_ <=? start)%Z) then Ret VErr else
@@ -224,7 +224,7 @@ Definition field_body (t : text) (args : list value) : res :=
   let fields := str_split t sep in
   let fields := if text_eqb sep [32%N] then filter (fun f => negb (text_eqb f [])) fields else fields in
   if (zlen fields <=? field)%Z then Ret (VText [])
-  else match go_index fields field with Some f => Ret (VText (trim_space f)) | None => Panic end)).
+  else match go_index fields field with Some f => Ret (VText (trim_space f)) | None => Panic PBounds end)).
 
 (* TextSlice(env, text, args...) *)
 Definition text_slice_finish (t : text) (start end_ : Z) : res :=
@@ -287,7 +287,7 @@ Definition round_down_body (d : dec) (places : Z) : res :=
 (* Mod(env, num1, num2) *)
 Definition mod_body (a b : dec) : res :=
   if dec_eqb b (Dec 0 0) then Ret VErr
-  else match dec_mod a b with Some r => Ret (VNum r) | None => Panic end.
+  else match dec_mod a b with inr r => Ret (VNum r) | inl c => Panic c end.
 
 (* Mean(env, args...) *)
 Fixpoint sum_numbers (args : list value) (acc : dec) : conv dec :=
@@ -298,7 +298,7 @@ Fixpoint sum_numbers (args : list value) (acc : dec) : conv dec :=
 
 Definition mean_body (args : list value) : res :=
   do sum <- sum_numbers args (Dec 0 0);
-  match dec_div sum (dec_of_Z (zlen args)) with Some q => Ret (VNum q) | None => Panic end.
+  match dec_div sum (dec_of_Z (zlen args)) with inr q => Ret (VNum q) | inl c => Panic c end.
 
 (* Max / Min (env, values...) *)
 Fixpoint fold_extreme (pick_new : dec -> dec -> bool) (vs : list value) (cur : dec) : res :=
@@ -319,7 +319,7 @@ Definition render_Z (z : Z) : text := (if (z <? 0)%Z then [45%N] else []) ++ dig
 
 Definition percent_body (d : dec) : res :=
   match dec_mul d (Dec 1 2) with
-  | None => Panic
+  | None => Panic PExponent
   | Some p => Ret (VText (render_Z (int_part (dec_round p 0)) ++ [37%N]))
   end.
 
@@ -402,7 +402,7 @@ Definition regex_match_finish (t pattern : text) (group_num : Z) : res :=
   | None => Ret VErr
   | Some groups =>
       if ((group_num <? 0) || (zlen groups <=? group_num))%Z then Ret VErr
-      else match go_index groups group_num with Some g => Ret (VText g) | None => Panic end
+      else match go_index groups group_num with Some g => Ret (VText g) | None => Panic PBounds end
   end.
 
 Definition regex_match_body (t : text) (args : list value) : res :=
@@ -420,7 +420,7 @@ Fixpoint has_group_loop (fuel : nat) (items : list value) (i : Z) (group_uuid : 
   | S fuel' =>
     if negb (i <? zlen items)%Z then Ret (VObject None [])          (* FalseResult *)
     else match go_index items i with
-         | None => Panic
+         | None => Panic PBounds
          | Some item =>
              do group <- to_object item;
              do uuid <- to_text (match obj_get (snd group) t_uuid with Some v => v | None => VNil end);
@@ -515,10 +515,10 @@ Definition eval_binop (op : binop) : value -> value -> res :=
   | ONeq => textual_binary (fun a b => Ret (VBool (negb (text_eqb a b))))
   | OAdd => numerical_binary (fun a b => Ret (VNum (dec_add a b)))
   | OSub => numerical_binary (fun a b => Ret (VNum (dec_sub a b)))
-  | OMul => numerical_binary (fun a b => match dec_mul a b with Some p => Ret (VNum p) | None => Panic end)
+  | OMul => numerical_binary (fun a b => match dec_mul a b with Some p => Ret (VNum p) | None => Panic PExponent end)
   | ODiv => numerical_binary (fun a b =>
               if dec_eqb b (Dec 0 0) then Ret VErr
-              else match dec_div a b with Some q => Ret (VNum q) | None => Panic end)
+              else match dec_div a b with inr q => Ret (VNum q) | inl c => Panic c end)
   | OLt => numerical_binary (cmp_is (fun c => match c with Lt => true | _ => false end))
   | OLte => numerical_binary (cmp_is (fun c => match c with Gt => false | _ => true end))
   | OGt => numerical_binary (cmp_is (fun c => match c with Gt => true | _ => false end))
@@ -537,7 +537,7 @@ Definition resolve_lookup (container lookup : value) (dot : bool) : res :=
       do index <- to_integer lookup;
       if ((zlen items <=? index) || (index <? - zlen items))%Z then Ret VErr
       else let index := if (index <? 0)%Z then (index + zlen items)%Z else index in
-           match go_index items index with Some v => Ret v | None => Panic end
+           match go_index items index with Some v => Ret v | None => Panic PBounds end
   | VObject _ props =>
       do property <- to_text lookup;
       match obj_get props property with
